@@ -354,6 +354,11 @@ def _rule_with_protocol(ctx: Ctx, r: 'LockRoles', enter_rule: Optional[str], exi
                       witness=render(g, w), construct=construct_key(f.qualname, 'ctx exit without release'))
 
 
+def _interrupt(o: Outcome) -> bool:
+    from ..model import carries_exception
+    return o.kind == 'raise' and bool(o.classes) and not carries_exception(o.classes)
+
+
 def _interrupt_after_clean_release(o: Outcome) -> bool:
     """A raise outcome that carries no `Exception` (KeyboardInterrupt / SystemExit out of a user callback, say) and leaves
     everything released: the lock's state is what a normal return would have left."""
@@ -531,6 +536,13 @@ def c02(ctx: Ctx) -> None:
             if isinstance(par, ast.Return):
                 ctx.holds('C02-R7', inst, g.loc(n), 'result returned to the caller')
                 continue
+            if isinstance(par, ast.Assign) and len(par.targets) == 1 and isinstance(par.targets[0], ast.Name) \
+                    and sum(1 for x in g.nodes if x.kind == 'store_name' and x.meta['name'] == par.targets[0].id) == 1 \
+                    and any(x.kind == 'yield' and isinstance(x.ast, ast.Yield) and isinstance(x.ast.value, ast.Name)
+                            and x.ast.value.id == par.targets[0].id for x in g.nodes) and f.is_generator:
+                ctx.holds('C02-R7', inst, g.loc(n), 'result handed to the with-statement (`yield <result>`): the caller decides (C02-R12 / C12-R14 '
+                          'check the rest of that protocol)')
+                continue
             # must be the test of a branch; on the "False" edge no normal exit / yield is reachable
             br = [x for x in g.nodes if x.kind == 'branch' and x.meta['test'] is n.ast]
             if not br and isinstance(par, ast.Assign) and len(par.targets) == 1 and isinstance(par.targets[0], ast.Name):
@@ -651,6 +663,41 @@ def classify_oslock(p, lk: Scope, ul: Optional[Scope]) -> Tuple[str, str]:
         if not raises_ or find_path(glk, [glk.entry], [glk.exit]) is not None:
             return 'bad', 'returns normally without applying any locking primitive: success is reported with nothing locked'
         return 'refuses', 'always raises'
+    # success is reported by returning normally: the last locking call on every such path must itself have returned
+    # (a retry loop that runs out after a failed attempt, a handler that swallows the refusal ... report a lock nobody granted)
+    failed_ = [e for n in prim_nodes for e in glk.succ[n.id] if e.label == 'exc']
+    if failed_:
+        cls_ = lk.enclosing_class()
+        last_iter: Dict[int, Tuple[str, int]] = {}      # for_iter node id -> (loop variable, its value in the last iteration)
+        for n in glk.nodes:
+            if n.kind == 'for_iter' and isinstance(n.ast, ast.For) and isinstance(n.ast.target, ast.Name) and isinstance(n.ast.iter, ast.Call) \
+                    and isinstance(n.ast.iter.func, ast.Name) and n.ast.iter.func.id == 'range' and 1 <= len(n.ast.iter.args) <= 2 \
+                    and not n.ast.iter.keywords and glk.scope.binding_scope('range') is None:
+                hi = _const_int(n.ast.iter.args[-1], lk, cls_, p)
+                stores = [x for x in ast.walk(lk.node) if isinstance(x, ast.Name) and x.id == n.ast.target.id and isinstance(x.ctx, ast.Store)]
+                if hi is not None and len(stores) == 1:
+                    last_iter[n.id] = (n.ast.target.id, hi - 1)
+
+        def after_failure(e):
+            if e.src in prim_nodes and e.label != 'exc':
+                return False            # a later attempt that succeeded
+            if e.src.kind == 'for_iter' and e.src.id in last_iter and e.label == 'true':
+                return False            # the path that runs out of attempts is looked at in its last iteration
+            if e.src.kind == 'branch' and e.label in ('true', 'false'):
+                for var, val in last_iter.values():
+                    tv = _fold_cmp(e.src.meta['test'], var, val, lk, cls_, p)
+                    if tv is not None and tv != (e.label == 'true'):
+                        return False
+            return True
+        wf = find_path(glk, [], [glk.exit], start_edges=failed_, edge_ok=after_failure)
+        if wf is not None:
+            return 'bad', ('returns normally although the last locking call failed (its error is swallowed / the retries ran out): success is '
+                           'reported with nothing locked; path: ' + ' -> '.join(render(glk, wf)[:8]))
+    for n in prim_nodes:
+        nm_ = res.path(resolve(glk, n, n.ast.func)) or res.path(n.ast.func)
+        if nm_ in ('fcntl.lockf', 'fcntl.fcntl'):
+            return 'bad', (f'{nm_} (line {n.line}): POSIX record locks are per process and independent of flock() - two FileLock objects in one '
+                           'process both succeed, and a holder that used flock() is not seen at all')
     if len(prim_nodes) != 1:
         return 'unknown', f'{len(prim_nodes)} locking primitive calls'
     pn = prim_nodes[0]
@@ -721,6 +768,79 @@ def classify_oslock(p, lk: Scope, ul: Optional[Scope]) -> Tuple[str, str]:
     if name in ('fcntl.lockf', 'fcntl.fcntl'):
         return 'bad', f'{name}: POSIX record locks are per process - two FileLock objects in one process both succeed'
     return 'unknown', f'unrecognised primitive {name}'
+
+
+def _const_int(e: ast.AST, f: Scope, cls_: Optional[Scope], p) -> Optional[int]:
+    """Integer value of a constant expression: literals, module constants, class-level constants read through
+    self / cls / the class name, + and -."""
+    if isinstance(e, ast.Constant) and isinstance(e.value, int) and not isinstance(e.value, bool):
+        return e.value
+    if isinstance(e, ast.BinOp) and isinstance(e.op, (ast.Add, ast.Sub)):
+        l, r_ = _const_int(e.left, f, cls_, p), _const_int(e.right, f, cls_, p)
+        if l is None or r_ is None:
+            return None
+        return l + r_ if isinstance(e.op, ast.Add) else l - r_
+    if isinstance(e, ast.UnaryOp) and isinstance(e.op, ast.USub):
+        v = _const_int(e.operand, f, cls_, p)
+        return -v if v is not None else None
+
+    def single(body, name):
+        vals = [st.value for st in body if isinstance(st, (ast.Assign, ast.AnnAssign)) and st.value is not None
+                and any(isinstance(t, ast.Name) and t.id == name for t in (st.targets if isinstance(st, ast.Assign) else [st.target]))]
+        return vals[0] if len(vals) == 1 else None
+    if isinstance(e, ast.Name) and f.binding_scope(e.id) is f.unit.module_scope:
+        v = single(f.unit.tree.body, e.id)
+        return _const_int(v, f, cls_, p) if v is not None else None
+    if isinstance(e, ast.Attribute) and isinstance(e.value, ast.Name) and cls_ is not None and e.value.id in ('self', 'cls', cls_.name):
+        # no instance attribute of that name anywhere in the package's classes
+        for uu in p.units.values():
+            for x in ast.walk(uu.tree):
+                if isinstance(x, ast.Attribute) and x.attr == e.attr and isinstance(x.ctx, (ast.Store, ast.Del)):
+                    return None
+        c: Optional[Scope] = cls_
+        seen = set()
+        while c is not None and id(c) not in seen:
+            seen.add(id(c))
+            v = single(c.node.body, e.attr)
+            if v is not None:
+                return _const_int(v, f, c, p)
+            nxt = None
+            for b in c.node.bases:
+                if isinstance(b, ast.Name):
+                    nxt = next((k for uu in p.units.values() for k in uu.classes() if k.name == b.id), None)
+                    if nxt is not None:
+                        break
+            c = nxt
+    return None
+
+
+def _fold_cmp(t: ast.AST, var: str, val: int, f: Scope, cls_: Optional[Scope], p) -> Optional[bool]:
+    """Truth of a comparison between the loop variable (valued *val*) and constants; None when it is something else."""
+    if isinstance(t, ast.UnaryOp) and isinstance(t.op, ast.Not):
+        v = _fold_cmp(t.operand, var, val, f, cls_, p)
+        return None if v is None else not v
+    if not (isinstance(t, ast.Compare) and len(t.ops) == 1):
+        return None
+
+    def side(x):
+        if isinstance(x, ast.Name) and x.id == var:
+            return val
+        if any(isinstance(y, ast.Name) and y.id == var for y in ast.walk(x)):
+            if isinstance(x, ast.BinOp) and isinstance(x.op, (ast.Add, ast.Sub)):
+                l, r_ = side(x.left), side(x.right)
+                if l is None or r_ is None:
+                    return None
+                return l + r_ if isinstance(x.op, ast.Add) else l - r_
+            return None
+        return _const_int(x, f, cls_, p)
+    if not any(isinstance(y, ast.Name) and y.id == var for y in ast.walk(t)):
+        return None
+    a, b = side(t.left), side(t.comparators[0])
+    if a is None or b is None:
+        return None
+    op = t.ops[0]
+    table = {ast.Lt: a < b, ast.LtE: a <= b, ast.Gt: a > b, ast.GtE: a >= b, ast.Eq: a == b, ast.NotEq: a != b}
+    return table.get(type(op))
 
 
 def fold_bits(e: ast.expr, env: Dict[str, bool], res: Resolver) -> Optional[Set[str]]:
@@ -846,7 +966,9 @@ def c12(ctx: Ctx) -> None:
                     and (s.c_known is not None or s.cmin >= 2)
                 if s.c_known is not None:
                     ok = s.v['CNT'] == Lin(0, s.c_known - 1) and s.v['DEPTH'] == Lin(0, s.c_known - 1) and s.c_known >= 2
-            if o.kind == 'raise' and not _interrupt_after_clean_release(o):
+            if o.kind == 'raise' and not _interrupt(o):
+                # (an interrupt - KeyboardInterrupt / SystemExit out of a user callback - is not release() failing; the state it
+                # leaves is held to the same standard as a return)
                 ok = False
                 exp = 'release() does not raise'
             inst = (f'release(force={forced}) with c={s.c_known if s.c_known is not None else ">=" + str(s.cmin)}: '
